@@ -33,6 +33,7 @@ pub fn gen_case(prop: &str, seed: u64) -> Case {
             p.max_steps = 22;
             p.w_create = 8;
             p.w_drop = 5;
+            p.pk_constraint_pct = 20;
             p.w_view = if avoid.on { 0 } else { 3 };
             p.w_index = if avoid.on { 0 } else { 2 };
             p.w_function = 2;
@@ -104,6 +105,7 @@ pub fn gen_case(prop: &str, seed: u64) -> Case {
             p.dup_key_pct = *krng.pick(&[8u64, 8, 30, 50]);
             p.borrow_key_pct = *krng.pick(&[0u64, 20, 40]);
             p.same_key_type_pct = 60;
+            p.pk_constraint_pct = 12;
             p.invalid_pct = 8;
             p.pk_first_only = false;
             p.key_first_projection = false;
@@ -288,6 +290,7 @@ fn simple_table(name: &str, pk: bool) -> TableDef {
             },
         ],
         pk: if pk { Some(0) } else { None },
+        pk_constraint: false,
     }
 }
 
